@@ -37,22 +37,27 @@ func NewReplicationStreamObserver(logger loggable) *ReplicationStreamObserver {
 		logger:         logger,
 	}
 }
+
+// maxObservedStreamIndex bounds the counter slice. Stream indexes come from request metadata, so an absurd
+// value must not be able to allocate gigabytes; it is far above any supported history shard count.
+const maxObservedStreamIndex = 1 << 20
+
 func (s *ReplicationStreamObserver) ReportStreamValue(idx int32, value int32) {
-	if idx < 0 {
-		s.logger.Warn("ReplicationStreamObserver NotifyConnect called with negative streamIndex")
+	if idx < 0 || idx > maxObservedStreamIndex {
+		s.logger.Warn("ReplicationStreamObserver NotifyConnect called with out-of-range streamIndex")
 		return
 	}
 	s.streamGrowLock.Lock()
+	defer s.streamGrowLock.Unlock()
 	// We want to grow the minimum number of times, so
-	if idx >= int32(len(s.streamActive)) {
+	if int(idx) >= len(s.streamActive) {
 		// Each index will be uniformly random in the range [0, maxStreams). Growing by a percentage of index helps
 		// minimize the amount of reallocation required. Starting with increasing to 125% of idx to keep memory waste low
-		newSize := min(int((idx+1)*9), math.MaxInt32) / 8
+		newSize := min((int(idx)+1)*9, math.MaxInt32) / 8
 		// grow and maximize
 		s.streamActive = slices.Grow(s.streamActive, newSize)[:newSize]
 	}
 	s.streamActive[idx].Add(value)
-	s.streamGrowLock.Unlock()
 }
 func (s *ReplicationStreamObserver) PrintActiveStreams() string {
 	sb := strings.Builder{}
